@@ -59,12 +59,17 @@ impl Extractor {
                 writer.write_all(buffer.as_slice())?;
             }
 
-            // Write last chunk
-            if end.byte_index > 0 {
+            // Write last chunk (it begins at the file's own offset if the file starts in this piece)
+            let last_begin = match start.file_index == end.file_index {
+                true => start.byte_index,
+                false => 0,
+            };
+            if end.byte_index > last_begin {
                 let name = utils::hash_to_string(&self.metainfo.piece(end.file_index)) + ".piece";
                 let reader = &mut BufReader::new(File::open(name)?);
+                reader.seek(std::io::SeekFrom::Start(last_begin as u64))?;
 
-                let mut buffer = vec![0; end.byte_index];
+                let mut buffer = vec![0; end.byte_index - last_begin];
                 reader.read_exact(buffer.as_mut_slice())?;
                 writer.write_all(buffer.as_slice())?;
             }
